@@ -69,7 +69,9 @@ var long300 = strings.Repeat("A", 300)
 func sStr(name string) Slot {
 	return Slot{Name: name, Def: 3, Dom: []Val{
 		{Label: "empty", S: ""}, {Label: "a", S: "a"}, {Label: "nonascii", S: "é"},
-		{Label: "path", S: `C:\x y`}, {Label: "long300", S: long300}}}
+		{Label: "path", S: `C:\x y`}, {Label: "long300", S: long300},
+		// beyond the basic plane: one UTF-16 code unit is no longer one character
+		{Label: "bmp-cjk", S: "日本"}, {Label: "astral-1", S: "a\U0001F600"}, {Label: "astral-3", S: "\U0001F600\U0001F601\U0001F602.txt"}}}
 }
 
 // sName is a string slot that is not a path (library, function, privilege names).
